@@ -26,6 +26,22 @@ pub static PARKED: AtomicU64 = AtomicU64::new(0);
 pub static PARKED_SIZE: AtomicUsize = AtomicUsize::new(0);
 /// worker slot of the last parked thread (usize::MAX = unknown)
 pub static PARKED_SLOT: AtomicUsize = AtomicUsize::new(usize::MAX);
+/// Threads parked because the system refused a request (the process would abort otherwise): inside or outside a
+/// window, whoever asked. The runner reports the run as inconclusive.
+pub static REFUSED: AtomicU64 = AtomicU64::new(0);
+pub static REFUSED_SIZE: AtomicUsize = AtomicUsize::new(0);
+pub static REFUSED_SLOT: AtomicUsize = AtomicUsize::new(usize::MAX);
+
+#[cold]
+fn refused(size: usize) -> ! {
+    REFUSED_SIZE.store(size, Ordering::SeqCst);
+    let slot = SLOT.try_with(|s| s.get()).unwrap_or(usize::MAX);
+    REFUSED_SLOT.store(slot, Ordering::SeqCst);
+    REFUSED.fetch_add(1, Ordering::SeqCst);
+    loop {
+        std::thread::park();
+    }
+}
 
 #[inline]
 fn note(size: usize) {
@@ -54,18 +70,30 @@ fn note(size: usize) {
 unsafe impl GlobalAlloc for Shim {
     unsafe fn alloc(&self, layout: Layout) -> *mut u8 {
         note(layout.size());
-        System.alloc(layout)
+        let p = System.alloc(layout);
+        if p.is_null() {
+            refused(layout.size());
+        }
+        p
     }
     unsafe fn alloc_zeroed(&self, layout: Layout) -> *mut u8 {
         note(layout.size());
-        System.alloc_zeroed(layout)
+        let p = System.alloc_zeroed(layout);
+        if p.is_null() {
+            refused(layout.size());
+        }
+        p
     }
     unsafe fn dealloc(&self, ptr: *mut u8, layout: Layout) {
         System.dealloc(ptr, layout)
     }
     unsafe fn realloc(&self, ptr: *mut u8, layout: Layout, new_size: usize) -> *mut u8 {
         note(new_size);
-        System.realloc(ptr, layout, new_size)
+        let p = System.realloc(ptr, layout, new_size);
+        if p.is_null() {
+            refused(new_size);
+        }
+        p
     }
 }
 
